@@ -186,4 +186,14 @@ CLAIMS["C11"] = {
     "technique": "CFG once/always path rules for the buffer index + table agreement of reducer pairings + pending-data discharge for re-chunking (AST, CFG)",
 }
 
+CLAIMS["C19"] = {
+    "text": "Decides that every field type of every bnpdataclass in the package (about 40 classes, 200+ fields, enumerated through inheritance) has a branch in the constructor conversion and "
+            "that the fall-through raises, that add_fields / extend / sort_by / replace build new tables from all columns (normal forms) and - by the ownership analysis - write into none of "
+            "their operands, that todict/from_dict use one separator and nesting rule and rows are zipped across all columns in field order, that no comparison is used as a statement in the "
+            "table/array modules (StringArray item assignment really assigns), that class memos are keyed by everything the cached class depends on, that identifier columns concatenate with "
+            "NumPy's own width promotion, and - shared with C06 - that constructing an encoded column from differently encoded data either re-targets safely or raises.",
+    "note": _NOTE + "Not decided: equal column lengths and row semantics of npstructures' npdataclass; pandas round trips on concrete data.",
+    "technique": "schema enumeration + branch exhaustiveness + ownership dataflow + idiom search + memo-key dependency analysis (AST)",
+}
+
 NOT_APPLICABLE = {}
